@@ -10,6 +10,7 @@ from vf import bpsynth as bp
 from vf import oalmodel as om
 
 INT, STR, BOOL, REAL, ENUM, ENUM2, VOID = 'integer', 'string', 'boolean', 'real', 'Color', 'Mood', 'void'
+UID = 'unique_id'      # identifying and referential attributes (read, compared, kept in variables)
 
 CLASSES = {
     'A': [('Id', 'unique_id'), ('N', INT), ('S', STR), ('F', BOOL), ('Next_Id', None), ('Hue', ENUM)],
@@ -194,6 +195,31 @@ class Gen(object):
         mk, n, a = r.choice(cands)
         return T(om.field(mk(n), a), ty)
 
+    def uid_read(self, selected_kind=None):
+        '''a read of an identifying or a referential attribute (the referential ones carry another name than
+        the attribute they refer to), or of a variable that holds such a value'''
+        r = self.rng
+        cands = []
+        for n, t in self.inst_vars():
+            for a, at in CLASSES[t[1]]:
+                if at in (None, 'unique_id'):
+                    cands.append((self.handle, n, a))
+        if self.has_self:
+            for a, at in CLASSES['A']:
+                if at in (None, 'unique_id'):
+                    cands.append((lambda _: T(om.self_(), ('inst', 'A')), None, a))
+        if selected_kind:
+            for a, at in CLASSES[selected_kind]:
+                if at in (None, 'unique_id'):
+                    cands.append((lambda _: T(om.selected(), ('inst', selected_kind)), None, a))
+        vs = self.vars_of(lambda t: t == UID)
+        if vs and r.random() < 0.3:
+            return T(om.var(r.choice(vs)[0]), UID)
+        if not cands:
+            return None
+        mk, n, a = r.choice(cands)
+        return T(om.field(mk(n), a), UID)
+
     def invocation(self, ty, depth, selected_kind=None):
         '''an invocation returning *ty* (VOID for statement use); None if impossible'''
         r = self.rng
@@ -310,6 +336,8 @@ class Gen(object):
 
     def expr(self, ty, depth=2, selected_kind=None):
         r = self.rng
+        if ty == UID:
+            return self.uid_read(selected_kind)
         k = r.random()
         if k < 0.18:
             vs = self.vars_of(lambda t: t == ty)
@@ -353,7 +381,12 @@ class Gen(object):
             return T(om.binary(op, self.expr(INT, depth - 1, selected_kind), self.expr(INT, depth - 1, selected_kind)), INT)
         if ty == STR:
             return T(om.binary('+', self.expr(STR, depth - 1, selected_kind), self.expr(STR, depth - 1, selected_kind)), STR)
-        op = r.choice(('cmp', 'cmp', 'and', 'or', 'not', 'empty', 'streq', 'enumeq', 'enumeq2'))
+        op = r.choice(('cmp', 'cmp', 'and', 'or', 'not', 'empty', 'streq', 'enumeq', 'enumeq2', 'uideq'))
+        if op == 'uideq':
+            a, b = self.uid_read(selected_kind), self.uid_read(selected_kind)
+            if a is not None and b is not None:
+                return T(om.binary(r.choice(('==', '!=')), a, b), BOOL)
+            op = 'cmp'
         if op == 'cmp':
             return T(om.binary(r.choice(('<', '<=', '==', '!=', '>=', '>')), self.expr(INT, depth - 1, selected_kind),
                                self.expr(INT, depth - 1, selected_kind)), BOOL)
@@ -407,7 +440,9 @@ class Gen(object):
             kinds += ['break', 'continue']
         k = r.choice(kinds)
         if k == 'assign':
-            ty = r.choice((INT, INT, STR, BOOL, REAL, ENUM, ENUM2))
+            ty = r.choice((INT, INT, STR, BOOL, REAL, ENUM, ENUM2, UID))
+            if ty == UID and self.uid_read() is None:
+                ty = INT
             vs = self.vars_of(lambda t: t == ty)
             if vs and r.random() < 0.4:
                 name = r.choice(vs)[0]
